@@ -19,5 +19,28 @@ pub fn run() {
         let v: Vec<char> = s.chars().collect();
         if v.iter().collect::<String>() != s { bad.push(format!("chars/collect {s:?}")); }
     }
+    // vfmt {:02X}
+    for b in 0u16..256 {
+        let b = b as u8;
+        let h: Vec<char> = format!("{:02X}", b).chars().collect();
+        let d = |n: u8| if n < 10 { (b'0' + n) as char } else { (b'A' + n - 10) as char };
+        if h != vec![d(b / 16), d(b % 16)] { bad.push(format!("{{:02X}} of {b}")); }
+    }
+    // vstr: replace(char, &str) = per-char map; replace("''", "'") leftmost non-overlapping; find(char); concat
+    let alpha = ['a', '\'', '\\', 'é'];
+    crate::util::strings(&alpha, 5, |s| {
+        let want: String = s.chars().map(|c| if c == '\'' { "''".to_string() } else { c.to_string() }).collect();
+        if s.replace('\'', "''") != want { bad.push(format!("replace(char) {s:?}")); }
+        let cs: Vec<char> = s.chars().collect();
+        let (mut i, mut o) = (0, String::new());
+        while i < cs.len() { if i + 1 < cs.len() && cs[i] == '\'' && cs[i + 1] == '\'' { o.push('\''); i += 2; } else { o.push(cs[i]); i += 1; } }
+        if s.replace("''", "'") != o { bad.push(format!("replace(str) {s:?}")); }
+        if s.find('\\').is_some() != s.chars().any(|c| c == '\\') { bad.push(format!("find {s:?}")); }
+        if "E'".to_owned() + &s.to_string() + "'" != format!("E'{s}'") { bad.push(format!("concat {s:?}")); }
+        false
+    });
+    // vchar: `c as u8` keeps the low 8 bits; from_utf8 of one byte is that ASCII char, and fails for >= 0x80
+    for c in ['a', 'é', '\u{141}', '\u{1F600}'] { if (c as u8) as u32 != (c as u32) % 256 { bad.push(format!("as u8 {c:?}")); } }
+    for b in 0u16..256 { let b = b as u8; match std::str::from_utf8(&[b]) { Ok(s) => if b >= 0x80 || s.chars().collect::<Vec<_>>() != vec![b as char] { bad.push(format!("from_utf8 {b}")) }, Err(_) => if b < 0x80 { bad.push(format!("from_utf8 {b}")) } } }
     if bad.is_empty() { println!("TRUSTED-OK"); } else { println!("TRUSTED-MISMATCH {}", bad.join(", ")); std::process::exit(1); }
 }
